@@ -27,6 +27,14 @@ func Root() string {
 	return "/verif"
 }
 
+// OutRoot is where evidence/ and replays/ are written (VERIF_OUT for mutant runs, else Root()).
+func OutRoot() string {
+	if r := os.Getenv("VERIF_OUT"); r != "" {
+		return r
+	}
+	return Root()
+}
+
 // Finding is one line of known_findings.jsonl.
 type Finding struct {
 	Property  string `json:"property"`
@@ -227,7 +235,7 @@ func (c *Ctx) Fail(sig, clause string, detail interface{}) bool {
 	v := Violation{Property: c.ID, Signature: sig, Clause: clause, Detail: detail}
 	b, _ := json.MarshalIndent(v, "", " ")
 	h := sha1.Sum(b)
-	dir := filepath.Join(Root(), "replays", c.ID)
+	dir := filepath.Join(OutRoot(), "replays", c.ID)
 	_ = os.MkdirAll(dir, 0o755)
 	path := filepath.Join(dir, hex.EncodeToString(h[:6])+".json")
 	v.Replay = path
@@ -321,7 +329,7 @@ func (c *Ctx) Finish() int {
 		"violations":  len(c.vioSigs),
 	}
 	b, _ := json.MarshalIndent(out, "", " ")
-	dir := filepath.Join(Root(), "evidence")
+	dir := filepath.Join(OutRoot(), "evidence")
 	_ = os.MkdirAll(dir, 0o755)
 	if os.Getenv("VERIF_NO_EVIDENCE") != "" {
 		return 0
